@@ -179,5 +179,13 @@ if __name__ == "__main__":
             if kind == "mutants":
                 rec["expect"] = e["expect"]
             idx[kind].append(rec)
+    # behaviour-preserving refactorings written independently (by sub-agents that saw only the repository): stored as patches,
+    # every check must stay silent on each of them
+    ext = os.path.join(here, "benign_ext")
+    allprops = ["C%02d" % i for i in range(1, 20)]
+    for f in sorted(os.listdir(ext)) if os.path.isdir(ext) else []:
+        if f.endswith(".patch"):
+            shutil.copy(os.path.join(ext, f), os.path.join(here, "benign", f))
+            idx["benign"].append({"name": f[:-6], "file": "(multi)", "props": allprops, "origin": "independent refactoring"})
     json.dump(idx, open(os.path.join(here, "index.json"), "w"), indent=1)
     print("mutants", len(idx["mutants"]), "benign", len(idx["benign"]))
